@@ -158,6 +158,17 @@ SameFrames(o, xfs, vid) ==
 (* text turn the result into an error -- and nothing else.                    *)
 AsText(h) == [i \in 1..Len(h) |-> IF i > 1 /\ h[i].s \in SentS THEN L("text", FALSE, FALSE, "none") ELSE h[i]]
 
+(* Symbol text.  The text of a symbol line (other than "is it sigpanic") is  *)
+(* "other text": a report whose symbol-position lines of the first running   *)
+(* goroutine lost their "(" (the name alone, the name followed by other text, *)
+(* any paren-less text) but kept their location lines differs from the        *)
+(* report AsSym(h) in symbol text only, so it must give that report's name or *)
+(* an error -- never another name (a frame silently dropped).                 *)
+AsSym(h) == LET hd == Hdr(h)  e == EndAfter(h, hd) IN
+            [i \in 1..Len(h) |->
+               IF hd > 0 /\ i > hd /\ i < e /\ (i - hd) % 2 = 1 /\ h[i].s = "text" /\ ~h[i].paren
+               THEN L("text", TRUE, FALSE, h[i].pc) ELSE h[i]]
+
 Allowed(h, vid, o) ==
   IF o.kind = "none" THEN MaySaySilent(h, o) /\ o.frames = <<>>
   ELSE
@@ -167,6 +178,9 @@ Allowed(h, vid, o) ==
      ELSE IF WellFormed(AsText(h))
      THEN \/ o.kind = "err"
           \/ LET x == Expected(AsText(h)) IN o.kind = x.kind /\ SameFrames(o, x.frames, vid)
+     ELSE IF WellFormed(AsSym(AsText(h)))
+     THEN \/ o.kind = "err"
+          \/ LET x == Expected(AsSym(AsText(h))) IN o.kind = x.kind /\ SameFrames(o, x.frames, vid)
      ELSE o.kind = "name" => LET lib == {vid[i] : i \in Liberal(h)} IN
                              /\ Len(o.frames) <= Cap
                              /\ \A k \in 1..Len(o.frames) : o.frames[k].v \in lib
